@@ -77,6 +77,9 @@ type DefaultFanController struct {
 	// offset applied to the actual minPwm of the fan to ensure "neverStops" constraint
 	minPwmOffset int
 
+	// true while this controller holds the InitializationSequenceMutex for its initialization sequence
+	holdsInitializationSequenceMutex bool
+
 	// the last output of the control loop, in the [0..255] range of the curve,
 	// i.e. **before** mapping it to the [minPwm, maxPwm] range of the fan
 	lastControlLoopOutput *int
@@ -266,6 +269,17 @@ func (f *DefaultFanController) UpdateFanSpeed() error {
 
 func (f *DefaultFanController) RunInitializationSequence() (err error) {
 	fan := f.fan
+
+	if !configuration.CurrentConfig.RunFanInitializationInParallel {
+		// hold the lock for the whole sequence (pwm map sweep and rpm curve measurement),
+		// so that only one fan is analyzed at a time
+		InitializationSequenceMutex.Lock()
+		f.holdsInitializationSequenceMutex = true
+		defer func() {
+			f.holdsInitializationSequenceMutex = false
+			InitializationSequenceMutex.Unlock()
+		}()
+	}
 
 	err1 := f.computePwmMap()
 	if err1 != nil {
@@ -581,7 +595,7 @@ func (f *DefaultFanController) findClosestDistinctTarget(target int) int {
 
 // computePwmMap computes a mapping between "requested pwm value" -> "actual set pwm value"
 func (f *DefaultFanController) computePwmMap() (err error) {
-	if !configuration.CurrentConfig.RunFanInitializationInParallel {
+	if !configuration.CurrentConfig.RunFanInitializationInParallel && !f.holdsInitializationSequenceMutex {
 		InitializationSequenceMutex.Lock()
 		defer InitializationSequenceMutex.Unlock()
 	}
